@@ -93,11 +93,11 @@ theorem constructChr_T (cfg : Cfg) (rs : Bool) (c : Chr) (fs : FS) :
   by_cases hb : (rs && fs.has (.processed c)) = true
   · simp [constructChr, hb, eventsOf, eventsOf_append, eventsOf_loads_nil]
   · rw [constructChr_fixed cfg rs c fs (by simpa using hb)]
-    have h1 := constructBody_T cfg c (tokOf (fs.good .info))
+    have h1 := constructBody_T cfg c (tokOf (fs.good .info && refOK cfg fs))
     simp only [constructBody, List.all_append, Bool.and_eq_true] at h1
     have e : eventsOf (Act.load (.multimap c) :: evs (constructHead cfg c) ++ [Act.load (.save c)] ++
-        evs (constructTail cfg c (tokOf (fs.good .info)) ++ [Ev.create (.processed c)]))
-        = constructHead cfg c ++ (constructTail cfg c (tokOf (fs.good .info)) ++ [Ev.create (.processed c)]) := by
+        evs (constructTail cfg c (tokOf (fs.good .info && refOK cfg fs)) ++ [Ev.create (.processed c)]))
+        = constructHead cfg c ++ (constructTail cfg c (tokOf (fs.good .info && refOK cfg fs)) ++ [Ev.create (.processed c)]) := by
       simp [eventsOf, eventsOf_append]
     rw [e, List.all_append, List.all_append, h1.1, h1.2]
     simp [Tcon, Ev.path]
@@ -109,13 +109,21 @@ theorem stages_notSaves {cfg : Cfg} (wf : WF cfg) (hm : cfg.fromSaves = true) (o
   rw [stages_eq] at hs
   simp only [hm, Bool.or_true, restStages, List.mem_cons, List.mem_append, List.mem_map, Bool.true_or, if_true,
     List.not_mem_nil, or_false] at hs
-  rcases hs with rfl | rfl | rfl | rfl | ⟨c, _, rfl⟩ | rfl | rfl | ⟨c, _, rfl⟩ | rfl | rfl
+  rcases hs with rfl | rfl | rfl | rfl | rfl | ⟨c, _, rfl⟩ | rfl | rfl | ⟨c, _, rfl⟩ | rfl | rfl
   · -- forceClean
     unfold forceClean; split
     · intro e he; simp [eventsOf] at he
     · exact rmAll_paths _ _ (fun p hp => isLock_notSaves (lockList_isLock cfg fs' p hp))
   · -- params
     intro e he; unfold paramsStage at he; cases rs <;> simp [eventsOf, evs] at he <;> rcases he with rfl | rfl <;> rfl
+  · -- reference unpacked
+    intro e he
+    have hp : e.path = .refFa := by
+      unfold refStage at he
+      split at he
+      · simp [eventsOf] at he
+      · simp [fixed, evs, eventsOf] at he; rcases he with rfl | rfl | rfl <;> rfl
+    rw [hp]; rfl
   · -- read-group split
     intro e he
     unfold rgStage at he
